@@ -3,7 +3,7 @@
 #include "vh.hpp"
 namespace vh {
 
-enum Kind { KLeft, KRight, KStride, KLpad, KRpad, KUser, KRev };
+enum Kind { KLeft, KRight, KStride, KLpad, KRpad, KUser, KRev, KBc };
 
 template <Kind K, class E, size_t SP> struct MapOf;
 template <class E, size_t SP> struct MapOf<KLeft, E, SP> { using type = md::layout_left::mapping<E>; };
